@@ -124,6 +124,11 @@ def expect(e, server_v2, with_instance):
     return out
 
 
+# (type name, str(exception)) of everything the registered callables of this corpus raise
+RAISED = [("RuntimeError", "kaboom"), ("UnicodeDecodeError", "'utf-8' codec can't decode byte 0xff in position 0: invalid start byte"),
+          ("KeyError", "('tuple', b'key')"), ("TypeError", "unsupported operand type(s) for +: 'int' and 'str'")]
+
+
 def check_response(r, exp, problems, where):
     kind, code, rid, v1, _ = exp
     if not isinstance(r, dict):
@@ -143,6 +148,9 @@ def check_response(r, exp, problems, where):
             problems.append("%s: malformed error object %r" % (where, err))
         elif err["code"] != code:
             problems.append("%s: error code %r, expected %r" % (where, err["code"], code))
+        elif code == CODES["internal"] and not any(t in err["message"] and x in err["message"] for t, x in RAISED):
+            # C05: "-32603 whose message names the exception type and text"
+            problems.append("%s: error message %r does not name the type and text of the exception the method raised" % (where, err["message"][:160]))
         if v1 and r.get("result") is not None:
             problems.append("%s: 1.0 error with a result" % where)
     elif kind == "result":
@@ -153,7 +161,7 @@ def check_response(r, exp, problems, where):
 def classify(problem):
     if "form members expected" in problem or "not a well-formed 2.0" in problem:
         return "C13" if "form members" in problem else "C02"
-    if "error code" in problem:
+    if "error code" in problem or "error message" in problem:
         return "C05"
     if "echoed as" in problem or "responses expected" in problem:
         return "C03"
